@@ -61,6 +61,8 @@ pub struct Knobs {
     pub initial_running: usize,
     pub prefixes: Vec<String>,
     pub writers: Vec<usize>,
+    /// subscriptions whose callback panics on local writes (not under C15, whose oracle counts calls)
+    pub allow_panicky: bool,
 }
 
 fn id_string(r: &mut Rng, len: usize, p: usize) -> String {
@@ -262,6 +264,7 @@ pub fn draw(r: &mut Rng, profile: Profile, enabled: &[String]) -> (E1Config, Kno
         initial_running: r.range(1, n as u64) as usize,
         prefixes,
         writers,
+        allow_panicky: !enabled.iter().any(|e| e == "C15"),
     };
     // swarm: each run scales its command mix, sometimes switching a kind off entirely
     {
@@ -528,7 +531,7 @@ impl Gen {
                     return Cmd::Watch { p, attach: w.nodes[p].as_ref().unwrap().watch_rx.is_none() };
                 }
                 if subs < 8 && (subs == 0 || self.r.chance(0.6)) {
-                    Cmd::Subscribe { p, prefix: self.r.pick(&self.k.prefixes).clone() }
+                    Cmd::Subscribe { p, prefix: self.r.pick(&self.k.prefixes).clone(), panicky: self.k.allow_panicky && self.r.chance(0.3) }
                 } else if self.r.chance(0.5) {
                     Cmd::Unsubscribe { p, sub: self.r.usize_below(subs) }
                 } else {
